@@ -104,13 +104,26 @@ class SymCtx(_Base):
 
   def approx(self, a, b, tol=1e-6):
     """Equality up to `tol` on the real stack (float32 storage etc.); exact
-    in the symbolic model."""
-    return symex.Eq(a, b)
+    in the symbolic model up to the same relative tolerance (float constants
+    enter the model with their exact binary value, so e.g. 60/(60/q) differs
+    from q by an ulp)."""
+    if not (symex.is_sym(a) or symex.is_sym(b)):
+      return abs(a - b) <= tol * max(1.0, abs(a), abs(b))
+    from fractions import Fraction  # pylint: disable=g-import-not-at-top
+    t = Fraction(tol)
+    d = a - b
+    bound = t * symex.Max(1, symex.If(a >= 0, a, -a), symex.If(b >= 0, b, -b))
+    return symex.And(d <= bound, -d <= bound)
 
   @property
   def np(self):
     from engine import nplite  # pylint: disable=g-import-not-at-top
     return nplite
+
+  @property
+  def pm(self):
+    from engine import pmlite  # pylint: disable=g-import-not-at-top
+    return pmlite
 
   def msg_eq(self, a, b):
     """Value equality of two messages (shim) as a term."""
@@ -248,6 +261,11 @@ class ConcCtx(_Base):
   def np(self):
     import numpy  # pylint: disable=g-import-not-at-top
     return numpy
+
+  @property
+  def pm(self):
+    import pretty_midi  # pylint: disable=g-import-not-at-top
+    return pretty_midi
 
   def msg_eq(self, a, b):
     return a == b
